@@ -35,7 +35,11 @@ func runC09(c *Ctx, r *Report) {
 	{
 		nret := 0
 		for _, t := range []struct{ pkg, recv, name string }{{"entry", "", "FromMultihashWithIO"}, {"entry", "Fetcher", "fetchEntry"}} {
-			fn := p.FuncI(t.pkg, t.recv, t.name)
+			fn := p.FuncOpt(t.pkg, t.recv, t.name)
+			if fn == nil {
+				continue // the thin wrapper may have been folded into its caller
+			}
+			fn = p.Inl(fn)
 			sf := p.SSAFunc(fn)
 			allInstrs(sf, false, func(ins ssa.Instruction) {
 				ret, ok := ins.(*ssa.Return)
